@@ -32,6 +32,8 @@ pub const DEPLOYER: &str = "deplo";
 pub const PAYOUTS: [&str; 2] = ["payo1", "payo2"];
 /// All 5 letters, so that (length, bytes) order == plain byte order.
 pub const ALL_USERS: [&str; 6] = ["alice", "bobby", "carol", "david", "erinn", "frank"];
+/// extra accounts of worlds with `odd_token_ids`
+pub const CASE_TWINS: [&str; 2] = ["ALICE", "Bobby"];
 pub const BASE_DENOMS: [&str; 4] = ["ujunox", "uusdcx", "uatom", "uosmo"];
 pub const JUNO_DENOM: &str = "ujunox";
 pub const USDC_DENOM: &str = "uusdcx";
@@ -393,6 +395,13 @@ impl Sim {
                 let coins: Vec<Coin> = denoms.iter().map(|d| Coin::new(config.native_start, d.clone())).collect();
                 router.bank.init_balance(st, &Addr::unchecked(u), coins).expect("init_balance");
             }
+            if config.odd_token_ids {
+                // accounts whose names differ from a user's only by letter case: different accounts
+                for u in CASE_TWINS {
+                    let coins: Vec<Coin> = denoms.iter().map(|d| Coin::new(1_000_000_000u128, d.clone())).collect();
+                    router.bank.init_balance(st, &Addr::unchecked(u), coins).expect("init_balance twin");
+                }
+            }
             // the deployer holds some coins too, so that its non-owner probes are not refused for lack of funds
             let coins: Vec<Coin> = denoms.iter().map(|d| Coin::new(1_000_000_000u128, d.clone())).collect();
             router.bank.init_balance(st, &Addr::unchecked(DEPLOYER), coins).expect("init_balance deployer");
@@ -476,6 +485,25 @@ impl Sim {
             minted.push(ids_here);
         }
 
+        if config.odd_token_ids {
+            // collections whose addresses are prefix-related (contract2 / contract20): a token of the shorter one
+            // whose id starts with the rest of the longer address, so that address ++ id coincide
+            for i in 0..cw721s.len() {
+                for j in 0..cw721s.len() {
+                    if i != j && cw721s[j].starts_with(cw721s[i].as_str()) && !minted[j].is_empty() {
+                        let suffix = cw721s[j][cw721s[i].len()..].to_string();
+                        // a token of collection j owned by users[0]
+                        let theirs = minted[j].iter().find(|t| t.starts_with("t0")).cloned().unwrap();
+                        let tid = format!("{}{}", suffix, theirs);
+                        let mint = cw721_base::ExecuteMsg::<cw721_base::Extension, Empty>::Mint(cw721_base::MintMsg { token_id: tid.clone(), owner: users[0].clone(), token_uri: None, extension: None });
+                        app.execute_contract(deplo.clone(), Addr::unchecked(cw721s[i].as_str()), &mint, &[]).expect("mint prefix twin");
+                        minted[i].push(tid);
+                        minted[i].sort_by(|a, b| a.as_bytes().cmp(b.as_bytes()));
+                    }
+                }
+            }
+        }
+
         // ---- hostile contracts (market address is set below)
         let mut hostiles = Vec::new();
         for i in 0..config.n_hostile {
@@ -530,6 +558,9 @@ impl Sim {
         // ---- name tables
         let mut addr_names: Vec<String> = users.clone();
         addr_names.push(DEPLOYER.to_string());
+        if config.odd_token_ids {
+            addr_names.extend(CASE_TWINS.iter().map(|s| s.to_string()));
+        }
         addr_names.extend(PAYOUTS.iter().map(|s| s.to_string()));
         addr_names.push(COMMUNITY_POOL.to_string());
         addr_names.extend(cw20s.iter().cloned());
@@ -988,17 +1019,35 @@ impl Sim {
     }
 
     pub fn bank_balance(&self, addr: &str, denom: &str) -> u128 {
-        self.app
-            .wrap()
-            .query_balance(addr, denom)
-            .expect("bank balance query")
-            .amount
-            .u128()
+        match self.app.wrap().query_balance(addr, denom) {
+            Ok(c) => c.amount.u128(),
+            Err(_) => self.bank_balances(addr).iter().find(|c| c.denom == denom).map_or(0, |c| c.amount.u128()),
+        }
     }
 
     /// All non-zero native balances of `addr`.
     pub fn bank_balances(&self, addr: &str) -> Vec<Coin> {
-        self.app.wrap().query_all_balances(addr).expect("bank all-balances query")
+        match self.app.wrap().query_all_balances(addr) {
+            Ok(v) => v,
+            Err(_) => {
+                // the bank *query* validates the address (a name like "ALICE" is refused as not normalised) although the
+                // bank keeps such accounts like any other: read the record the keeper stores, `bank` / `balances` / addr
+                let mut key: Vec<u8> = vec![0, 4];
+                key.extend_from_slice(b"bank");
+                key.extend_from_slice(&[0, 8]);
+                key.extend_from_slice(b"balances");
+                key.extend_from_slice(addr.as_bytes());
+                let raw = self.app.read_module(|_router, _api, storage| storage.get(&key));
+                match raw {
+                    None => vec![],
+                    Some(bytes) => {
+                        let mut coins: Vec<Coin> = cosmwasm_std::from_slice(&bytes).expect("fzharness: undecodable bank balance record");
+                        coins.retain(|c| !c.amount.is_zero());
+                        coins
+                    }
+                }
+            }
+        }
     }
 
     pub fn cw20_balance(&self, token: &str, holder: &str) -> u128 {
